@@ -198,6 +198,29 @@ CHECKS = {
             "contracts (A A^T=C lower-triangular, inv(M) M=I, ranks, least contributor) are validated numerically on every call; IEEE rounding: theorems are over "
             "the reals, correspondence uses relative tolerance 1e-9 (inverse checks scaled by cond).",
             "Lean 4 proof over a hand-written model (Mathlib matrices via a list<->Matrix bridge) + differential correspondence with tolerance + oracle"),
+    "C16": ("partial",
+            "Lean theorems C16.create_succeeds, fresh_attrs, clone_equal, clone_disjoint, clone_shares_no_mutable, write_independent, clone_chain, "
+            "pickle_equal, pickle_disjoint, partial_call, decorate_keeps_frozen hold for every class table (classes mention earlier classes only, dict_inst "
+            "names unique), every closed heap and every finite object graph meeting the hooks' stated side conditions, at every depth and chain length; "
+            "Core/Heap.lean (deepcopy with memo + the five DEAP hooks as coded, reduce-tuple pickling, init_type, functools.partial) is diffed against the real "
+            "creator/clone/pickle on concrete object graphs with an identity-aware dump for all bases, attribute graphs with aliasing, protocols 0..5, same and "
+            "fresh interpreter; the statement (equal abstraction, equivalent class, no shared mutable object, mutation in both directions) is an oracle on the real objects.",
+            TB + "partial: that CPython's copy/pickle/metaclass machinery dispatches to the modelled hooks (e.g. __reduce_ex__ precedence, F11; __slots__/__getstate__, F15) "
+            "is runtime behaviour only the correspondence sees; acyclic graphs; pickle model is a tree (internal sharing checked by oracle only); dtype of an empty "
+            "ndarray is not content.",
+            "Lean 4 proof over a hand-written heap model + differential correspondence (in-process and fresh interpreter) + oracle with mutation test"),
+    "C17": ("partial",
+            "Lean theorems C17.deterministic(_on), run_add, resume(_at), resumeFrom_eq, resume_many(_from), resume_needs_complete_state, schedule_independent/"
+            "covering/missing, pmap_eq_some_iff, loop_mapper_independent, loop_schedule_independent, genLoop_eq_run are the algebra of checkpointing and "
+            "order-preserving maps for every step function, crash list and completion schedule. The substance is the runtime check: for GA on lists, NSGA-II, SPEA2, "
+            "NSGA-III with memory, GP with ephemerals, CMA-ES, (1+lambda)-CMA, MO-CMA-ES (and the packaged deap.algorithms loops for determinism and schedules) the "
+            "three equations are evaluated on the implementation - twice in-process and in a fresh interpreter; kill -9 after EVERY generation with every pickle "
+            "protocol and resume in a new process; Pool(1,2,4,8).map with delays and all 24 permutations of small map calls - comparing complete fingerprints "
+            "(genomes, fitness, archives with keys, logbooks, strategy and selector-memory arrays byte-wise, both generator states).",
+            TB + "partial and the weakest of the twenty in its Lean part: the theorems do not speak about processes, pickles or the OS; that every object pickles its "
+            "complete state, that no operator keeps state outside the two generators and that evaluation is pure is exactly what the correspondence tests; OS (SIGKILL, "
+            "fresh process), multiprocessing.Pool.map as an order-preserving map, and the fingerprint's completeness are trusted.",
+            "Lean 4 algebra + process-level differential testing (kill/resume at every generation and protocol, permuted and pooled maps)"),
 }
 
 NOT_YET = {}
